@@ -230,6 +230,28 @@ def run(chk):
                 edge_filter=None, summarised=None)
     else:
         chk.analysis_error("C07.atomic.swap: `self._acquired.remove(placeholder)` not found in connect()")
+    # swap, pairing: every set the placeholder was added to gives it up when the real connection takes its place (the per-host set too -
+    # a placeholder left there counts against limit_per_host for ever)
+    def _set_of(call):
+        recv = call.func.value
+        t = norm.text(recv, call)
+        return " ".join(t.split())
+
+    adds, removes = {}, {}
+    for c in ast.walk(connect.node):
+        if isinstance(c, ast.Call) and isinstance(c.func, ast.Attribute) and len(c.args) == 1 and isinstance(c.args[0], ast.Name) and c.args[0].id == "placeholder":
+            if c.func.attr == "add":
+                adds.setdefault(_set_of(c), c)
+            elif c.func.attr in ("remove", "discard"):
+                removes.setdefault(_set_of(c), c)
+    if len(adds) < 2:
+        chk.analysis_error(f"C07.swap.sets: {len(adds)} sets receive the placeholder in connect(), 2 were confirmed by hand (_acquired, _acquired_per_host[key])")
+    for sname, c in adds.items():
+        if sname in removes:
+            chk.ok("C07.swap.sets", removes[sname], f"connect(): the placeholder added to `{sname}` is taken out of it again when the connection is swapped in")
+        else:
+            chk.violation("C07.swap.sets", c, K.short(c), f"{sname}.remove(placeholder) in the swap",
+                          f"the placeholder is added to `{sname}` and never taken out of it on the success path: the slot stays counted (limit / limit_per_host shrink by one per connection)")
 
     # reuse: a connection taken out of the pool is counted as acquired before anything suspends
     getf = repo.func(MOD, "BaseConnector._get")
@@ -409,6 +431,20 @@ def run(chk):
                 if norm.raw(b["F"]) == fut:
                     fin_ok = True
                     chk.ok("C07.waiterfinally", call, "the waiter removes itself from the queue in the `finally` of the try that awaits it")
+            # the same removal spelled `del queue[fut]`: it is skipped only when the future is not in the queue any more (`if fut in queue:`
+            # as the one and only condition inside the finally, or a KeyError handler around it)
+            for d in [d for s_ in t.finalbody for d in ast.walk(s_) if isinstance(d, ast.Delete)]:
+                for tg in d.targets:
+                    if not (isinstance(tg, ast.Subscript) and norm.raw(tg.slice) == fut):
+                        continue
+                    q = norm.raw(tg.value)
+                    cond = PC.pc(d, stop=t, raw=True)
+                    member = [c for c in cond if len(c) == 1 and next(iter(c)).pos and next(iter(c)).text == f"{fut} in {q}"]
+                    caught = any(not isinstance(h.body[-1], ast.Raise) and any(x in ("KeyError", "LookupError", "Exception", "BaseException") for x in PC.handler_types(h))
+                                 for t2, h in K.enclosing_try_handlers(d) if any(t2 is x for s_ in t.finalbody for x in ast.walk(s_)))
+                    if (member and len(member) == len(cond)) or (caught and not cond):
+                        fin_ok = True
+                        chk.ok("C07.waiterfinally", d, "the waiter removes itself from the queue in the `finally` of the try that awaits it")
     if not fin_ok:
         chk.violation("C07.waiterfinally", awn, f"await {fut}", f"finally: <queue>.pop({fut}, None)", "a cancelled/failed waiter stays in the queue")
     # stale alias: the per-key queue may be deleted inside the loop; the queue the future is put into must be looked up in the same iteration
@@ -664,6 +700,111 @@ def _capacity(chk, avail):
         chk.exhaustive_domains.append(f"C07.capacity: {rows} rows")
 
 
+class _Hit(Exception):
+    pass
+
+
+_EXITS = (ast.Return, ast.Raise, ast.Continue, ast.Break)
+_DEFS = (ast.FunctionDef, ast.AsyncFunctionDef, ast.ClassDef, ast.Lambda)
+
+
+def _inner(st):
+    """st and the nodes below it, nested definitions excluded."""
+    stack = [st]
+    while stack:
+        n = stack.pop()
+        yield n
+        stack.extend(c for c in ast.iter_child_nodes(n) if not isinstance(c, _DEFS))
+
+
+def _reached(stmts, env, is_target) -> bool:
+    """Follow the statement list `stmts` (normal completion only) under the values `env` gives to its atoms (dtable Evaluator: tests are
+    evaluated in source order, so a comparison with None that the code would run into is a TypeError here as well) and report whether a
+    simple statement satisfying `is_target` is executed before the list is left (return / raise / continue / break, or its end).
+    Locals are carried along: an assignment of an evaluable expression defines the name, any other assignment makes it unknown again
+    (a name `env` declares keeps the declared value: that is what `env` says about an opaque definition).  A test that cannot be evaluated
+    is an AnalysisError unless its outcome cannot matter (no target below it, and no exit below it with a target still to come); loops are
+    not entered."""
+    seeds = dict(env)
+    ev = Evaluator(env)
+
+    def forget(st):
+        for x in _inner(st):
+            if isinstance(x, ast.Name) and isinstance(x.ctx, (ast.Store, ast.Del)):
+                if x.id in seeds:
+                    ev.env[x.id] = seeds[x.id]
+                else:
+                    ev.env.pop(x.id, None)
+
+    # source order of the statements followed: nothing is executed twice (loops are not entered), so what runs after a statement lies after it
+    order: dict[int, int] = {}
+
+    def number(n):
+        order[id(n)] = len(order)
+        for c in ast.iter_child_nodes(n):
+            if not isinstance(c, _DEFS):
+                number(c)
+
+    for s_ in stmts:
+        number(s_)
+    targets = [x for s_ in stmts for x in _inner(s_) if isinstance(x, ast.stmt) and is_target(x)]
+
+    def matters(st):
+        """Can the way `st` is left decide whether a target is executed?  It contains one, or it can leave the block and one follows."""
+        last = max(order[id(x)] for x in _inner(st))
+        return any(isinstance(x, ast.stmt) and is_target(x) for x in _inner(st)) \
+            or (any(isinstance(x, _EXITS) for x in _inner(st)) and any(order[id(tg)] > last for tg in targets))
+
+    def block(body) -> bool:
+        """True: the block completes normally; False: it is left by an exit statement."""
+        for st in body:
+            if is_target(st):
+                raise _Hit()
+            if isinstance(st, _EXITS):
+                return False
+            if isinstance(st, ast.If):
+                try:
+                    taken = st.body if ev.ev(norm.subst(st.test, st)) else st.orelse
+                except AnalysisError:
+                    if matters(st):
+                        raise
+                    forget(st)
+                    continue
+                if not block(taken):
+                    return False
+            elif isinstance(st, (ast.With, ast.AsyncWith)):
+                forget(ast.Module(body=[i.optional_vars for i in st.items if i.optional_vars is not None], type_ignores=[]))
+                if not block(st.body):
+                    return False
+            elif isinstance(st, ast.Try):
+                done = block(st.body) and block(st.orelse)
+                if not block(st.finalbody) or not done:
+                    return False
+            elif isinstance(st, (ast.For, ast.AsyncFor, ast.While, ast.Match)):
+                if matters(st):
+                    raise AnalysisError(f"cannot follow `{K.short(st, 40)}` (line {st.lineno}): a loop that contains the statement looked for or an exit")
+                forget(st)
+            elif isinstance(st, (ast.Assign, ast.AnnAssign)) and getattr(st, "value", None) is not None \
+                    and isinstance(st.targets[0] if isinstance(st, ast.Assign) and len(st.targets) == 1 else getattr(st, "target", None), ast.Name):
+                name = (st.targets[0] if isinstance(st, ast.Assign) else st.target).id
+                try:
+                    ev.env[name] = ev.ev(norm.subst(st.value, st))
+                except AnalysisError:
+                    forget(st)
+            elif isinstance(st, _DEFS):
+                continue
+            else:
+                # walrus targets inside an expression statement, tuple / augmented assignments, del
+                forget(st)
+        return True
+
+    try:
+        block(stmts)
+    except _Hit:
+        return True
+    return False
+
+
 def round7_rules(chk, repo):
     """Rule written after seeding round 7 (seed C07-7): connect() looks at the closed flag after its last suspension point.
     close() closes what is in _acquired; while connect() is suspended (establishing the connection, or in an on_connection_create_end
@@ -787,40 +928,49 @@ def hunt3_rules(chk, repo):
         else:
             chk.violation("C07.release.closed", rel, "if self._closed: return", "protocol.close()", "a connection released after the connector was closed is neither pooled nor closed: its socket stays open until garbage collection", path=g.fmt_path(p))
     # ---- C07.release.expiry: what _get() would never reuse is not pooled; what is pooled can be judged by _get() ---------------------------
-    pool = [c for c, _b in K.exprs(rel, "self._conns[$K].append($V)")]
-    tests = [i for i in ast.walk(rel.node) if isinstance(i, ast.If) and any(isinstance(r_, ast.Return) for r_ in i.body) and M.contains(i.test, "protocol.should_close")]
-    if not pool or not tests:
+    # The decision is read off the control flow, not off one `if`: the statements of _release() are followed under each value of the
+    # timeout (tests evaluated in source order on the declared atoms, locals carried along) and what counts is whether the pool insertion
+    # is executed - whichever way the close-or-pool test is phrased (guard + return, if/else, a local holding the verdict, its negation).
+    pool = [K.stmt_of(c) for c, _b in K.exprs(rel, "self._conns[$K].append($V)")]
+    if not pool:
         chk.analysis_error("C07.release.expiry: pool insertion / close-or-pool test not found in BaseConnector._release")
     else:
-        base = {"self._force_close": False, "should_close": False, "protocol.should_close": False}
+        base = {"self._closed": False, "self._force_close": False, "should_close": False, "protocol.should_close": False}
+        is_pool = lambda st: any(st is p_ for p_ in pool)
         try:
-            vals = {v: bool(Evaluator({**base, "self._keepalive_timeout": v}).ev(norm.subst(tests[0].test, tests[0]))) for v in (0, 0.0, -1, 15.0, None)}
+            # vals[v]: the connection is closed (not pooled) under keepalive_timeout = v
+            vals = {v: not _reached(rel.node.body, {**base, "self._keepalive_timeout": v}, is_pool) for v in (0, 0.0, -1, 15.0, None)}
         except (AnalysisError, TypeError) as e:
             vals = {"error": str(e)}
         if vals.get(0) and vals.get(0.0) and vals.get(-1) and vals.get(15.0) is False and vals.get(None) is False:
-            chk.ok("C07.release.expiry", tests[0], "_release(): with keepalive_timeout <= 0 the connection is closed instead of pooled (the clean-up timer is never armed for it and _get() would find it expired); positive / None timeouts pool")
+            chk.ok("C07.release.expiry", pool[0], "_release(): with keepalive_timeout <= 0 the connection is closed instead of pooled (the clean-up timer is never armed for it and _get() would find it expired); positive / None timeouts pool")
         else:
-            chk.violation("C07.release.expiry", tests[0], K.short(tests[0], 80), "or (self._keepalive_timeout is not None and self._keepalive_timeout <= 0)",
-                          f"close-or-pool decision by keepalive_timeout: {vals}: with a timeout of 0 every released connection goes into the pool, _get() finds it expired at once and opens a new one, nothing ever removes it - one leaked socket per request")
+            chk.violation("C07.release.expiry", pool[0], K.short(pool[0], 80), "or (self._keepalive_timeout is not None and self._keepalive_timeout <= 0)",
+                          f"close-or-pool decision by keepalive_timeout (True = closed): {vals}: with a timeout of 0 every released connection goes into the pool, _get() finds it expired at once and opens a new one, nothing ever removes it - one leaked socket per request")
     get = repo.func(MOD, f"{CLS}._get")
-    reuse = [i for i in ast.walk(get.node) if isinstance(i, ast.If) and M.contains(i.test, "$P.is_connected()")]
-    if not reuse:
-        chk.analysis_error("C07.release.expiry: reuse test not found in BaseConnector._get")
+    # the same reading of _get(): from the statement that takes a connection out of the pool, is the statement that counts it as acquired
+    # executed (connected, idle for t1 - t0 seconds)?
+    taken = [K.stmt_of(c) for c, _b in K.exprs(get, "$C.popleft()")]
+    reused = [K.stmt_of(c) for c, _b in K.exprs(get, "self._acquired.add($P)")]
+    blk = PC._block_of(taken[0]) if taken else None
+    if not taken or not reused or blk is None:
+        chk.analysis_error("C07.release.expiry: reuse test not found in BaseConnector._get (pool removal `popleft()` / `self._acquired.add(proto)`)")
     else:
-        rtest = norm.subst(reuse[0].test, reuse[0])
-        conn = next(norm.raw(c) for c in ast.walk(rtest) if isinstance(c, ast.Call) and norm.raw(c.func).endswith(".is_connected"))
+        rest = blk[blk.index(taken[0]) + 1:]
+        conn = {norm.raw(c): True for c in ast.walk(get.node) if isinstance(c, ast.Call) and norm.raw(c.func).endswith(".is_connected") and not c.args}
+        is_reuse = lambda st: any(st is r_ for r_ in reused)
         try:
-            none_ok = bool(Evaluator({conn: True, "t1": 100.0, "t0": 1.0, "self._keepalive_timeout": None, "keepalive_timeout": None}).ev(rtest))
-            pos_ok = bool(Evaluator({conn: True, "t1": 100.0, "t0": 99.0, "self._keepalive_timeout": 15.0, "keepalive_timeout": 15.0}).ev(rtest))
-            old_no = not bool(Evaluator({conn: True, "t1": 100.0, "t0": 1.0, "self._keepalive_timeout": 15.0, "keepalive_timeout": 15.0}).ev(rtest))
+            none_ok = _reached(rest, {**conn, "t1": 100.0, "t0": 1.0, "self._keepalive_timeout": None, "keepalive_timeout": None}, is_reuse)
+            pos_ok = _reached(rest, {**conn, "t1": 100.0, "t0": 99.0, "self._keepalive_timeout": 15.0, "keepalive_timeout": 15.0}, is_reuse)
+            old_no = not _reached(rest, {**conn, "t1": 100.0, "t0": 1.0, "self._keepalive_timeout": 15.0, "keepalive_timeout": 15.0}, is_reuse)
             why = ""
         except (AnalysisError, TypeError) as e:
             none_ok = pos_ok = old_no = False
             why = f" ({type(e).__name__}: {e})"
         if none_ok and pos_ok and old_no:
-            chk.ok("C07.release.expiry", reuse[0], "_get(): keepalive_timeout=None (which _release() pools) is read as `never expires`; a numeric timeout bounds the idle time")
+            chk.ok("C07.release.expiry", reused[0], "_get(): keepalive_timeout=None (which _release() pools) is read as `never expires`; a numeric timeout bounds the idle time")
         else:
-            chk.violation("C07.release.expiry", reuse[0], K.short(reuse[0], 80), "keepalive_timeout is None or t1 - t0 <= keepalive_timeout",
+            chk.violation("C07.release.expiry", taken[0], K.short(taken[0], 80), "keepalive_timeout is None or t1 - t0 <= keepalive_timeout",
                           "the reuse test compares the idle time with keepalive_timeout=None" + why + ": the second request through a connector created with keepalive_timeout=None raises TypeError out of _get(), and the pooled connection it had popped is dropped unclosed")
     # ---- C07.middleware.error: the digest middleware owns the challenge response until it hands it on ---------------------------------------
     DG = "aiohttp/client_middleware_digest_auth.py"
